@@ -72,7 +72,17 @@ class HedgeLoss(Module, ABC):
             torch.Tensor
         """
         pl = input - target
-        return bisect(self, self(pl), pl.min(), pl.max())
+        precision = 1e-6
+
+        # The loss of a constant sample at ``c``, evaluated for each column.
+        def fn(c: Tensor) -> Tensor:
+            return self(c.unsqueeze(0))
+
+        # Search each column in its own range; widening the range by the precision
+        # keeps it non-degenerate (lower < upper) for a constant sample.
+        lower = pl.amin(dim=0) - precision
+        upper = pl.amax(dim=0) + precision
+        return bisect(fn, self(pl), lower, upper, precision=precision)
 
 
 class EntropicRiskMeasure(HedgeLoss):
